@@ -2,8 +2,8 @@
    refutation of the unguarded discipline.  The invariant proofs of the guarded
    discipline are in ConcGuardProofs.v. *)
 From Coq Require Import String List NArith Bool Arith.
-From J5V.model Require Import Conc ConcSites ConcCorr.
-From J5V.gen Require ConcGen.
+From J5V.model Require Import Conc ConcSites ConcCorr ConcState.
+From J5V.gen Require ConcGen ConcStateGen.
 Import ListNotations.
 
 (* ---- computed agreement with the regenerated tables ----------------------- *)
@@ -19,6 +19,23 @@ Lemma sites_all_guarded :
   forallb (site_guarded ConcGen.cache_methods) ConcGen.cache_methods = true.
 Proof. vm_compute. reflexivity. Qed.
 
+(* the reachability search behind site_guarded never ran out of fuel on the table at hand *)
+Lemma reach_fuel_sufficient : reach_fuel_ok ConcGen.cache_methods = true.
+Proof. vm_compute. reflexivity. Qed.
+
+(* and when it does run out the answer is the explicit RsOutOfFuel, which site_guarded
+   counts as NOT guarded: an exported method that reaches the map through a chain of
+   three calls, searched with fuel 1; with the fuel of the table the lock is demanded *)
+Definition deep_table : fn_table := [
+  ("A"%string, true, ["call:b"%string]); ("b"%string, false, ["call:c"%string]);
+  ("c"%string, false, ["call:d"%string]); ("d"%string, false, ["write:Schemas"%string])].
+
+Lemma reaches_shared_out_of_fuel :
+  reaches_shared 1 deep_table ["A"%string] ["call:b"%string] = RsOutOfFuel /\
+  reaches_shared (reach_fuel deep_table) deep_table ["A"%string] ["call:b"%string] = RsYes /\
+  site_guarded deep_table ("A"%string, true, ["call:b"%string]) = false.
+Proof. repeat split; vm_compute; reflexivity. Qed.
+
 (* the access sequence of every method of *SchemaCache is the one Conc.v mirrors *)
 Lemma cache_methods_agree : ConcGen.cache_methods = expected_cache_methods.
 Proof. vm_compute. reflexivity. Qed.
@@ -26,33 +43,52 @@ Proof. vm_compute. reflexivity. Qed.
 Lemma placeholder_functions_agree : ConcGen.placeholder_functions = expected_placeholder_functions.
 Proof. vm_compute. reflexivity. Qed.
 
-(* Reflector and Codec: methods only call (no assignment to a receiver field, no map,
-   no lock); the cache is reached through SchemaCache.Schema *)
-Lemma reflector_stateless : only_calls ConcGen.reflector_methods = true /\ ConcGen.reflector_package_vars = [].
-Proof. split; vm_compute; reflexivity. Qed.
-
-Lemma codec_stateless : only_calls ConcGen.codec_methods = true /\ ConcGen.codec_package_vars = ["Global"%string].
-Proof. split; vm_compute; reflexivity. Qed.
-
 Lemma codec_entry_points_agree : ConcGen.codec_entry_points = expected_codec_entry_points.
 Proof. vm_compute. reflexivity. Qed.
 
-(* the only mutable state on the path is the cache: struct fields and package-level variables *)
-Lemma struct_fields_agree :
-  ConcGen.cache_fields = expected_cache_fields /\
-  ConcGen.reflector_fields = expected_reflector_fields /\
-  ConcGen.codec_fields = expected_codec_fields.
-Proof. repeat split; vm_compute; reflexivity. Qed.
+(* ---- the census of mutable state (go/types; ConcStateGen.v) passes every check ---------- *)
 
-Lemma package_vars_agree :
-  ConcGen.codec_pkg_vars = expected_codec_pkg_vars /\
-  ConcGen.reflect_pkg_vars = expected_reflect_pkg_vars /\
-  ConcGen.schema_pkg_vars = expected_schema_pkg_vars /\
-  ConcGen.codec_pkg_var_writers = [] /\ ConcGen.reflect_pkg_var_writers = [] /\ ConcGen.schema_pkg_var_writers = [].
-Proof. repeat split; vm_compute; reflexivity. Qed.
-
-Lemma schema_writers_agree : ConcGen.schema_writers = expected_schema_writers.
+(* the load-bearing parts by name first, so that a broken one is reported under its own name *)
+Lemma census_lf_writes_nothing :
+  lf_writes_nothing ConcStateGen.lockfree_fns ConcStateGen.state_writes = true.
 Proof. vm_compute. reflexivity. Qed.
+
+Lemma census_vars_only_initialised : vars_only_initialised ConcStateGen.state_writes = true.
+Proof. vm_compute. reflexivity. Qed.
+
+Lemma census_lf_reads_no_locked_field : lf_reads_no_locked_field ConcStateGen.lf_read_fields = true.
+Proof. vm_compute. reflexivity. Qed.
+
+Lemma census_holders : holders_hold_only_the_cache ConcStateGen.shared_fields = true.
+Proof. vm_compute. reflexivity. Qed.
+
+Lemma census_lk_writes_to_fresh : lk_writes_to_fresh ConcStateGen.lk_field_writes = true.
+Proof. vm_compute. reflexivity. Qed.
+
+Lemma census_holds : census_ok = true.
+Proof. vm_compute. reflexivity. Qed.
+
+(* coverage in the usable direction: whatever function of the lock-free set one picks, it has
+   no reported write other than to a caller's scalar buffer or a message under construction *)
+Lemma lf_function_writes_nothing : forall w,
+  In w ConcStateGen.state_writes -> In (w_fn w) ConcStateGen.lockfree_fns -> is_benign_target (w_target w) = true.
+Proof.
+  intros w Hw Hf. pose proof census_lf_writes_nothing as H. unfold lf_writes_nothing in H.
+  rewrite forallb_forall in H. specialize (H w Hw).
+  assert (E : in_strs (w_fn w) ConcStateGen.lockfree_fns = true).
+  { unfold in_strs. apply existsb_exists. exists (w_fn w). split; [exact Hf | apply String.eqb_refl]. }
+  rewrite E in H. exact H.
+Qed.
+
+(* the checks reject the seeded regressions *)
+Lemma census_rejects_regressions :
+  lf_writes_nothing ConcStateGen.lockfree_fns (memo_write :: ConcStateGen.state_writes) = false /\
+  lf_writes_nothing ConcStateGen.lockfree_fns (memo_alias_write :: ConcStateGen.state_writes) = false /\
+  vars_only_initialised (pkg_cache_write :: ConcStateGen.state_writes) = false /\
+  holders_hold_only_the_cache (("j5reflect.Reflector.rootProps"%string, "map[string]*j5reflect.propSet"%string, true) :: ConcStateGen.shared_fields) = false /\
+  forallb shared_type_ok ("j5reflect.propSet"%string :: ConcStateGen.shared_types) = false /\
+  lk_writes_to_fresh (republish_write :: ConcStateGen.lk_field_writes) = false.
+Proof. repeat split; vm_compute; reflexivity. Qed.
 
 (* ---- the unguarded discipline violates the property ------------------------ *)
 Local Open Scope N_scope.
@@ -66,7 +102,7 @@ Definition w1_calls : list (list name) := [[1]; [1]].
 Definition w1_sched : list tid := [0; 0; 0; 1; 1]%nat.
 
 Lemma unguarded_refuted_root :
-  nth 1%nat (results (run Unguarded 3 w1_graph w1_calls w1_sched)) [] = [RErr] /\
+  nth 1%nat (results (run Unguarded 3 w1_graph w1_calls w1_sched)) [] = [RUnlinked] /\
   result_solo 3 w1_graph 1 = ROk (UNode 1 [UNode 2 []]) /\
   results (run Unguarded 3 w1_graph [[1]] [0; 0; 0; 0; 0; 0; 0]%nat) = [[result_solo 3 w1_graph 1]].
 Proof. repeat split; vm_compute; reflexivity. Qed.
